@@ -64,6 +64,10 @@ func (m *mockCLA) Send(b bpv7.Bundle) error {
 // testCore builds a real Core (real store code over the store/file models, real CLA manager, cron, id keeper).
 func testCore(algo string, dir string) *Core {
 	conf := RoutingConf{Algorithm: algo}
+	if algo == "sensor-mule" {
+		// a data mule running epidemic routing underneath; peer 1 is a sensor node
+		conf.SensorMuleConf = SensorNetworkMuleConfig{Algorithm: &RoutingConf{Algorithm: "epidemic"}, SensorNodeRegex: "^dtn://peer1/"}
+	}
 	conf.SprayConf.Multiplicity = 3
 	conf.DTLSRConf = DTLSRConfig{RecomputeTime: "30s", BroadcastTime: "30s", PurgeTime: "10m"}
 	conf.ProphetConf = ProphetConfig{PInit: 0.75, Beta: 0.25, Gamma: 0.98, AgeInterval: "1m"}
